@@ -56,7 +56,7 @@ def texts(quick, rng):
 
 
 CODES = ['60', '100', '200', '400', '800', '1500', '3000', '5000', '10000', 'MILE', '110H', '400H', '3000SC', '5K', '10K', 'HM', 'MAR',
-         '20KW', '3000W', '4x100', '4x400', 'XC', '100K', 'HJ', 'PV', 'LJ', 'TJ', 'SP', 'DT', 'HT', 'JT', 'WT', 'hj', 'SP7.26K', 'JT800',
+         '20KW', '3000W', '4x100', '4x400', 'XC', '100K', 'HJ', 'PV', 'LJ', 'TJ', 'SP', 'DT', 'HT', 'JT', 'WT', 'hj', 'Pv', 'jt', 'tJ', 'SP7.26K', 'JT800',
          'SHJ', 'SLJ', 'OT', 'TART', 'DEC', 'HEP', 'PEN', 'dec', 'H1', 'L9', 'BAL', 'SPB', 'T30', '24HR', '80H76.2cm8m', '2MT',
          '4xRELAY', 'SC', '300', '150', '1000', '2000W', '4x1500']
 LOOSE = ['60m', '100m', '200m', '400m', '800m', '1500m', '3000m', '5000m', '10000m', '3000mW']
@@ -74,6 +74,7 @@ def _job(job):
     common.use_repo()
     from athlib.utils import check_performance_for_discipline as cp, get_distance, field_event_record
     from athlib import check_event_code
+    from athlib.utils import FIELD_EVENT_RECORDS_BY_GENDER as RECORDS
     code, loose, tl = job
     out = []
     try:
@@ -104,7 +105,10 @@ def _job(job):
                 again = 'err'
             except Exception:
                 again = 'exc'
-        rec = field_event_record(code, g or 'all')
+        # the record is looked up here, in the library's table, not by the function under test: whichever way the
+        # discipline and the gender are spelt, the limit is the one of the event (men's / women's / larger of the two)
+        recs = RECORDS.get((g or 'all').lower(), RECORDS['all'])
+        rec = recs.get(code.strip().upper())
         numberlike = False
         if o == 'ok':
             try:
